@@ -89,6 +89,9 @@ type Term struct {
 	P2   int
 	// unsigned interval of the value (BV only); always valid (full range when unknown)
 	ULo, UHi uint64
+	// signed interval (BV only); SOk=false when unknown
+	SLo, SHi int64
+	SOk      bool
 	vars     []int // sorted ids of free variables (lazily computed)
 	varsDone bool
 	NMul     int // number of multiplication / division nodes below (tree count, saturating)
@@ -206,7 +209,125 @@ func (c *Ctx) UF(name string, s Sort, w int, args []*Term) *Term {
 	return c.mk(&Term{Op: OUF, Sort: s, W: w, Name: name, Args: args})
 }
 
+func (c *Ctx) computeSRange(t *Term) {
+	w := t.W
+	minS, maxS := int64(-1)<<uint(w-1), int64(1)<<uint(w-1)-1
+	if w >= 64 {
+		minS, maxS = math.MinInt64, math.MaxInt64
+	}
+	fits := func(lo, hi int64) bool { return lo >= minS && hi <= maxS && lo <= hi }
+	set := func(lo, hi int64) {
+		if fits(lo, hi) {
+			t.SLo, t.SHi, t.SOk = lo, hi, true
+		}
+	}
+	addOv := func(a, b int64) (int64, bool) {
+		r := a + b
+		if (a > 0 && b > 0 && r < 0) || (a < 0 && b < 0 && r >= 0) {
+			return 0, false
+		}
+		return r, true
+	}
+	mulOv := func(a, b int64) (int64, bool) {
+		if a == 0 || b == 0 {
+			return 0, true
+		}
+		r := a * b
+		if r/b != a || (a == -1 && b == math.MinInt64) || (b == -1 && a == math.MinInt64) {
+			return 0, false
+		}
+		return r, true
+	}
+	switch t.Op {
+	case OConst:
+		set(t.SVal(), t.SVal())
+	case OZext:
+		a := t.Args[0]
+		if a.UHi <= uint64(maxS) {
+			set(int64(a.ULo), int64(a.UHi))
+		}
+	case OSext:
+		a := t.Args[0]
+		if a.SOk {
+			set(a.SLo, a.SHi)
+		} else {
+			set(int64(-1)<<uint(a.W-1), int64(1)<<uint(a.W-1)-1)
+		}
+	case ONeg:
+		a := t.Args[0]
+		if a.SOk && a.SLo != math.MinInt64 {
+			set(-a.SHi, -a.SLo)
+		}
+	case OAdd:
+		a, b := t.Args[0], t.Args[1]
+		if a.SOk && b.SOk {
+			lo, ok1 := addOv(a.SLo, b.SLo)
+			hi, ok2 := addOv(a.SHi, b.SHi)
+			if ok1 && ok2 {
+				set(lo, hi)
+			}
+		}
+	case OSub:
+		a, b := t.Args[0], t.Args[1]
+		if a.SOk && b.SOk && b.SLo != math.MinInt64 && b.SHi != math.MinInt64 {
+			lo, ok1 := addOv(a.SLo, -b.SHi)
+			hi, ok2 := addOv(a.SHi, -b.SLo)
+			if ok1 && ok2 {
+				set(lo, hi)
+			}
+		}
+	case OMul:
+		a, b := t.Args[0], t.Args[1]
+		if a.SOk && b.SOk {
+			var vals [4]int64
+			ok := true
+			for i, p := range [][2]int64{{a.SLo, b.SLo}, {a.SLo, b.SHi}, {a.SHi, b.SLo}, {a.SHi, b.SHi}} {
+				v, o := mulOv(p[0], p[1])
+				if !o {
+					ok = false
+				}
+				vals[i] = v
+			}
+			if ok {
+				lo, hi := vals[0], vals[0]
+				for _, v := range vals[1:] {
+					if v < lo {
+						lo = v
+					}
+					if v > hi {
+						hi = v
+					}
+				}
+				set(lo, hi)
+			}
+		}
+	case OIte:
+		a, b := t.Args[1], t.Args[2]
+		if a.SOk && b.SOk {
+			lo, hi := a.SLo, a.SHi
+			if b.SLo < lo {
+				lo = b.SLo
+			}
+			if b.SHi > hi {
+				hi = b.SHi
+			}
+			set(lo, hi)
+		}
+	case OVar, OUF:
+		if w < 64 {
+			set(minS, maxS)
+		}
+	}
+	if !t.SOk {
+		// fall back on the unsigned interval when it does not straddle the sign bit
+		if lo, hi, ok := t.sRangeFromU(); ok {
+			t.SLo, t.SHi, t.SOk = lo, hi, true
+		}
+	}
+}
+
 func (c *Ctx) computeRange(t *Term) {
+	defer c.computeSRange(t)
 	m := mask(t.W)
 	t.ULo, t.UHi = 0, m
 	switch t.Op {
@@ -282,6 +403,13 @@ func (c *Ctx) computeRange(t *Term) {
 
 // signed interval helpers (derived from the unsigned one when it does not straddle the sign bit)
 func (t *Term) sRange() (lo, hi int64, ok bool) {
+	if t.SOk {
+		return t.SLo, t.SHi, true
+	}
+	return t.sRangeFromU()
+}
+
+func (t *Term) sRangeFromU() (lo, hi int64, ok bool) {
 	sb := uint64(1) << uint(t.W-1)
 	if t.UHi < sb {
 		return int64(t.ULo), int64(t.UHi), true
@@ -659,6 +787,10 @@ func (c *Ctx) bin(op Op, a, b *Term) *Term {
 		if b.IsConst() && b.Val == 1 {
 			return a
 		}
+		// signed: (x * k) / k -> x when the signed interval of the product is known (no wrap)
+		if op == OSDiv && b.IsConst() && b.SVal() > 0 && a.Op == OMul && a.Args[1].IsConst() && a.Args[1].Val == b.Val && a.SOk {
+			return a.Args[0]
+		}
 		// (x * k) / k  -> x when the multiplication provably did not wrap
 		if b.IsConst() && a.Op == OMul && a.Args[1].IsConst() && a.Args[1].Val == b.Val && b.Val != 0 {
 			x := a.Args[0]
@@ -673,6 +805,9 @@ func (c *Ctx) bin(op Op, a, b *Term) *Term {
 		}
 	case OURem, OSRem:
 		if b.IsConst() && b.Val == 1 {
+			return c.BV(w, 0)
+		}
+		if op == OSRem && b.IsConst() && b.SVal() > 0 && a.Op == OMul && a.Args[1].IsConst() && a.Args[1].Val == b.Val && a.SOk {
 			return c.BV(w, 0)
 		}
 		if b.IsConst() && a.Op == OMul && a.Args[1].IsConst() && a.Args[1].Val == b.Val && b.Val != 0 {
@@ -783,7 +918,46 @@ func (c *Ctx) Sext(a *Term, w int) *Term {
 
 // ---- floating point ----
 
+// noNaN reports whether a float term can structurally never be NaN.
+func noNaN(t *Term) bool {
+	switch t.Op {
+	case OConst:
+		return !math.IsNaN(math.Float64frombits(t.Val))
+	case OFFromSBV:
+		return true
+	case OFNeg:
+		return noNaN(t.Args[0])
+	case OIte:
+		return noNaN(t.Args[1]) && noNaN(t.Args[2])
+	case OFDiv:
+		// finite / non-zero finite constant
+		if t.Args[1].IsConst() {
+			d := math.Float64frombits(t.Args[1].Val)
+			return d != 0 && !math.IsNaN(d) && !math.IsInf(d, 0) && finite(t.Args[0])
+		}
+	}
+	return false
+}
+
+func finite(t *Term) bool {
+	switch t.Op {
+	case OConst:
+		f := math.Float64frombits(t.Val)
+		return !math.IsNaN(f) && !math.IsInf(f, 0)
+	case OFFromSBV:
+		return true
+	case OFNeg:
+		return finite(t.Args[0])
+	case OIte:
+		return finite(t.Args[1]) && finite(t.Args[2])
+	}
+	return false
+}
+
 func (c *Ctx) fcmp(op Op, a, b *Term) *Term {
+	if a == b && noNaN(a) {
+		return c.Bool(op != OFLt)
+	}
 	if a.IsConst() && b.IsConst() {
 		x, y := math.Float64frombits(a.Val), math.Float64frombits(b.Val)
 		switch op {
